@@ -193,6 +193,10 @@ func (p *PsUnpacker) FeedRtpBody(rtpBody []byte, rtpts uint32) error {
 	for p.buf.Len() != 0 {
 		rb := p.buf.Bytes()
 		i := 0
+		if len(rb) < 4 {
+			// 不足一个start code，等待后续数据
+			return nil
+		}
 		code := bele.BeUint32(rb[i:])
 		i += 4
 
@@ -300,6 +304,9 @@ func (p *PsUnpacker) parsePsm(rb []byte, index int) int {
 	}
 
 	for esml > 0 {
+		if i+4 > len(rb) {
+			return -1
+		}
 		streamType := rb[i]
 		i += 1
 		streamId := rb[i]
@@ -338,11 +345,18 @@ func (p *PsUnpacker) parsePsm(rb []byte, index int) int {
 	// skip
 	i += 4
 
+	if i > len(rb) {
+		return -1
+	}
 	return i - index
 }
 
 func (p *PsUnpacker) parseAvStream(code int, rtpts uint32, rb []byte, index int) int {
 	i := index
+
+	if len(rb)-i < 2 {
+		return -1
+	}
 
 	// 注意，由于length是两字节，所以存在一个帧分成多个pes包的情况
 	length := int(bele.BeUint16(rb[i:]))
@@ -357,9 +371,20 @@ func (p *PsUnpacker) parseAvStream(code int, rtpts uint32, rb []byte, index int)
 		return -1
 	}
 
+	// 注意，以下长度字段都来自网络，需要检查它们之间是否自洽，不自洽的pes包直接跳过
+	if length < 3 || 3+int(rb[i+2]) > length {
+		nazalog.Warnf("invalid pes packet, skip. code=%d, length=%d", code, length)
+		return 2 + length
+	}
+
 	ptsDtsFlag := rb[i+1] >> 6
 	phdl := int(rb[i+2]) // pes header data length
 	i += 3
+
+	if (ptsDtsFlag&0x2 != 0 && phdl < 5) || (ptsDtsFlag == 0x3 && phdl < 10) || (ptsDtsFlag == 0x1 && phdl < 5) {
+		// 标志位声明有pts/dts，但是pes头部数据长度不够
+		ptsDtsFlag = 0
+	}
 
 	var pts int64 = -1
 	var dts int64 = -1
